@@ -4,7 +4,7 @@
 
    stamp_matrix_indep_sources  for every stamp-defining class, the matrix part
        (G, B, C, D entries) of the stamp does not depend on the independent
-       source values / initial-condition parameters (par pIsc, par pVoc), nor
+       source values / initial-condition parameters (par pIsc, par pVoc; for K: pI01, pI02), nor
        does the success of the stamp; the right-hand side (Is, Es entries) is
        additive and homogeneous in them.
    asm_src_add / asm_src_scale  the same for assembled netlists (induction
